@@ -32,6 +32,7 @@ CONSTANTS Nodes,       \* data nodes (integers)
           Writers,     \* coordinators that may write (2 = a PD leader fail-over in which the old
                        \* leader keeps acting on its stale view for a while)
           RSet,        \* replication factors ChangeFactor may switch to ({R} = fixed factor)
+          RmNodes,     \* data nodes the operator may mark for removal from the cluster ({} = never)
           MaxEpoch,    \* bound: number of metadata writes explored
           MaxID        \* bound: largest raft id explored
 \* guards that can be switched off one at a time (spec mutants; all TRUE = the design)
@@ -44,6 +45,7 @@ CONSTANTS G_OnePending,    \* no removal is marked while another one is pending
           G_Distinct,      \* a node is never added twice
           G_LeftRaft,      \* a removal is only finished after the replica left the raft group
           G_CAS,           \* a write from a stale copy of the record fails
+          G_Unlisted,      \* a node marked for removal is reported removable only when no partition lists it
           G_Surplus        \* a balance / check round only removes a replica of a live node when the
                            \* partition has more in-sync replicas than the factor (add first, then remove)
 CONSTANTS MaxDown, MaxUnsynced  \* environment bounds (number of nodes): how many nodes may be down / answer
@@ -52,7 +54,8 @@ CONSTANT CountCalls        \* TRUE: coordinator calls are counted (every call is
                            \* it decides to do nothing - used when behaviours are generated for replay);
                            \* FALSE for exhaustive checking
 
-VARIABLE rf           \* the replication factor in force (namespace meta; ChangeFactor changes it)
+VARIABLES rf,         \* the replication factor in force (namespace meta; ChangeFactor changes it)
+          rmn         \* data nodes marked for removal -> "marked" | "removable" (reported as transferred)
 
 Range(s) == {s[i] : i \in DOMAIN s}
 RemoveAt(s, x) == SelectSeq(s, LAMBDA y : y # x)
@@ -73,7 +76,12 @@ InRaft(m, n, env) == n \in DOMAIN env.members /\ n \in DOMAIN m.ids /\ env.membe
 ISRFullReady(m, env) == \A r \in ISR(m) : /\ r \in env.alive /\ r \notin env.unsynced
                                           /\ \A q \in ISR(m) : InRaft(m, q, env)
 \* every replica that is alive answers "in sync"
-AliveSynced(m, env) == \A r \in NodeSet(m) \cap env.alive : r \notin env.unsynced
+\* A node the operator marked for removal from the cluster is no longer a placement candidate; the
+\* coordinator treats its replicas like those of a lost node (it neither counts them as alive nor
+\* asks them for their sync state), so they may be marked without a replacement being added first -
+\* what remains must still be a strict majority and the other live replicas in sync.
+Lost(n, env) == n \notin env.alive \/ n \in env.removing
+AliveSynced(m, env) == \A r \in (NodeSet(m) \cap env.alive) \ env.removing : r \notin env.unsynced
 
 \* Each guard has a name; XxxBroken(m, n, env) is the set of names of the guards a step would
 \* break ({} = the step is allowed).  ZCoordTrace prints these names for a rejected real step.
@@ -85,13 +93,14 @@ MarkBroken(m, n, env) ==
   \cup If(G_Quorum => Quorum(Cardinality(ISR(m) \ {n})), "Mark:RemainingNotAMajority")
   \cup If(G_Reachable => ~MajorityUnreachable(m, env), "Mark:MajorityUnreachable")
   \* either the replica's node is lost (and the others are stable), or a planned move of a ready group
-  \cup If((n \notin env.alive /\ AliveSynced(m, env)) \/ ISRFullReady(m, env), "Mark:GroupNotStable")
+  \cup If((Lost(n, env) /\ AliveSynced(m, env)) \/ ISRFullReady(m, env), "Mark:GroupNotStable")
 CanMark(m, n, env) == MarkBroken(m, n, env) = {}
 MarkOf(m, n) == [m EXCEPT !.rem = @ \cup {n}]
 
 AddBroken(m, n, env) ==
   If(G_Distinct => n \notin NodeSet(m), "Add:NodeAlreadyReplica")
   \cup If(n \in env.alive, "Add:NodeNotAlive")
+  \cup If(n \notin env.removing, "Add:NodeBeingRemoved")     \* no new replica on a node marked for removal
   \cup If(G_NoAddPending => m.rem = {}, "Add:RemovalPending")
   \cup If(G_SyncAdd => ISRFullReady(m, env), "Add:ReplicasNotInSync")
   \* at most one surplus replica (a move adds before it removes)
@@ -143,10 +152,10 @@ VARIABLES metas,     \* partition -> the record in the store
           used,      \* history: partition -> every raft id ever handed out
           bad,       \* history: names of clauses that a write broke
           calls      \* number of coordinator calls (only counted if CountCalls)
-cvars == <<metas, views, alive, unsynced, mems, used, bad, calls, rf>>
+cvars == <<metas, views, alive, unsynced, mems, used, bad, calls, rf, rmn>>
 Called == calls' = IF CountCalls THEN calls + 1 ELSE calls
 
-EnvP(p) == [alive |-> alive, unsynced |-> unsynced, members |-> mems[p]]
+EnvP(p) == [alive |-> alive, unsynced |-> unsynced, members |-> mems[p], removing |-> DOMAIN rmn]
 Copy(w, p, src) == IF src = "snap" THEN views[w][p] ELSE metas[p]
 
 \* "starting from any valid layout": InitK replicas (a strict majority of R, at most R) on nodes
@@ -163,6 +172,7 @@ CInit == /\ metas = [p \in Parts |-> InitRec]
          /\ bad = {}
          /\ calls = 0
          /\ rf = R
+         /\ rmn = <<>>
 
 \* compare-and-swap of the record of partition p computed from copy c.  Every clause of C18 that
 \* the written record breaks - relative to the factor in force now - is remembered in `bad`.
@@ -181,8 +191,8 @@ MarkFlags(p, c, n) == (IF MajorityUnreachable(c, EnvP(p)) THEN {"MarkedWhenMajor
 AddFlags(p, c, n)  == (IF ~ISRFullReady(c, EnvP(p)) THEN {"AddedWhenNotInSync"} ELSE {})
                       \cup (IF c.rem # {} THEN {"AddedWhileRemovalPending"} ELSE {})
 \* a move made by a balance or check round: add first, remove only the surplus
-SurplusOK(c, n)    == (G_Surplus /\ n \in alive) => Cardinality(ISR(c)) > rf
-RoundFlags(c, n)   == (IF n \in alive /\ Cardinality(ISR(c)) <= rf THEN {"RoundReducedInSync"} ELSE {})
+SurplusOK(c, n)    == (G_Surplus /\ n \in alive /\ n \notin DOMAIN rmn) => Cardinality(ISR(c)) > rf
+RoundFlags(c, n)   == (IF n \in alive /\ n \notin DOMAIN rmn /\ Cardinality(ISR(c)) <= rf THEN {"RoundReducedInSync"} ELSE {})
 
 DoMark(p, c, n)   == CanMark(c, n, EnvP(p)) /\ Write(p, c, MarkOf(c, n), MarkFlags(p, c, n))
 DoRoundMark(p, c, n) == /\ CanMark(c, n, EnvP(p)) /\ SurplusOK(c, n)
@@ -190,13 +200,13 @@ DoRoundMark(p, c, n) == /\ CanMark(c, n, EnvP(p)) /\ SurplusOK(c, n)
 DoAdd(p, c, n)    == CanAdd(c, n, EnvP(p)) /\ Write(p, c, AddOf(c, n), AddFlags(p, c, n))
 DoFinish(p, c, n) == CanFinish(c, n, EnvP(p)) /\ Write(p, c, FinishOf(c, n), {})
 Noop              == UNCHANGED <<metas, used, bad>>
-Rest              == Called /\ UNCHANGED <<views, alive, unsynced, mems, rf>>
+Rest              == Called /\ UNCHANGED <<views, alive, unsynced, mems, rf, rmn>>
 
 \* -- coordinator entry points (what the driver can call).  Doing nothing is always allowed.
 \* Migrate: the reaction to lost replicas - mark a lost one, or add a replacement
 Migrate(w, p, src) ==
   /\ LET c == Copy(w, p, src) IN
-       \/ \E n \in NodeSet(c) \ alive : DoMark(p, c, n)
+       \/ \E n \in NodeSet(c) : Lost(n, EnvP(p)) /\ DoMark(p, c, n)
        \/ \E n \in Nodes : Cardinality(NodeSet(c)) < rf /\ DoAdd(p, c, n)
        \/ Noop
   /\ Rest
@@ -226,35 +236,55 @@ BalanceStep(p) == \/ \E n \in Nodes : DoAdd(p, metas[p], n)
 BalanceRound(w) ==
   /\ (\E p \in Parts : BalanceStep(p)) \/ Noop
   /\ Rest
+\* -- removing a data node from the cluster (MarkNodeAsRemoving + processRemovingNodes): the operator
+\* marks the node; every round moves ONE of its replicas off (add a replacement elsewhere, then mark
+\* the replica - never below the factor) or, when no partition lists the node any more, reports it
+\* as removable ("data transferred")
+MarkNodeRemoving(n) == /\ n \in RmNodes \ DOMAIN rmn
+                       /\ rmn' = [x \in DOMAIN rmn \cup {n} |-> IF x = n THEN "marked" ELSE rmn[x]]
+                       /\ UNCHANGED <<metas, views, alive, unsynced, mems, used, bad, calls, rf>>
+Unlisted(n) == \A p \in Parts : n \notin NodeSet(metas[p])
+MoveStep(p, n) == \/ \E x \in Nodes : DoAdd(p, metas[p], x)
+                  \/ ISRFullReady(metas[p], EnvP(p)) /\ DoRoundMark(p, metas[p], n)
+NodeRemovable(n) == /\ n \in DOMAIN rmn /\ rmn[n] = "marked"
+                    /\ G_Unlisted => Unlisted(n)
+                    /\ rmn' = [rmn EXCEPT ![n] = "removable"]
+                    /\ bad' = bad \cup (IF Unlisted(n) THEN {} ELSE {"RemovableWhileListed"})
+                    /\ Called /\ UNCHANGED <<metas, views, alive, unsynced, mems, used, rf>>
+MoveOff(w) ==
+  \/ (\E n \in DOMAIN rmn, p \in Parts : n \in NodeSet(metas[p]) /\ MoveStep(p, n)) /\ Rest
+  \/ \E n \in DOMAIN rmn : NodeRemovable(n)
+  \/ Noop /\ Rest
 Snapshot(w, p) == /\ views' = [views EXCEPT ![w][p] = metas[p]]
-                  /\ UNCHANGED <<metas, alive, unsynced, mems, used, bad, calls, rf>>
+                  /\ UNCHANGED <<metas, alive, unsynced, mems, used, bad, calls, rf, rmn>>
 
 \* -- environment
 AllNodeSets == UNION {NodeSet(metas[p]) : p \in Parts}
 NodeDown(n) == n \in alive /\ Cardinality(Nodes \ alive) < MaxDown /\ alive' = alive \ {n} /\ unsynced' = unsynced \ {n}
-               /\ UNCHANGED <<metas, views, mems, used, bad, calls, rf>>
+               /\ UNCHANGED <<metas, views, mems, used, bad, calls, rf, rmn>>
 NodeUp(n)   == n \notin alive /\ alive' = alive \cup {n}
-               /\ UNCHANGED <<metas, views, unsynced, mems, used, bad, calls, rf>>
+               /\ UNCHANGED <<metas, views, unsynced, mems, used, bad, calls, rf, rmn>>
 SyncLost(n) == n \in AllNodeSets \cap alive /\ n \notin unsynced /\ Cardinality(unsynced) < MaxUnsynced /\ unsynced' = unsynced \cup {n}
-               /\ UNCHANGED <<metas, views, alive, mems, used, bad, calls, rf>>
+               /\ UNCHANGED <<metas, views, alive, mems, used, bad, calls, rf, rmn>>
 SyncBack(n) == n \in unsynced /\ unsynced' = unsynced \ {n}
-               /\ UNCHANGED <<metas, views, alive, mems, used, bad, calls, rf>>
+               /\ UNCHANGED <<metas, views, alive, mems, used, bad, calls, rf, rmn>>
 \* the raft group of a partition follows the metadata: a current replica joins, a marked/dropped one leaves
 RaftJoin(p, n) == /\ n \in ISR(metas[p]) /\ ~InRaft(metas[p], n, EnvP(p))
                   /\ mems' = [mems EXCEPT ![p] = [x \in DOMAIN @ \cup {n} |-> IF x = n THEN metas[p].ids[n] ELSE @[x]]]
-                  /\ UNCHANGED <<metas, views, alive, unsynced, used, bad, calls, rf>>
+                  /\ UNCHANGED <<metas, views, alive, unsynced, used, bad, calls, rf, rmn>>
 RaftLeave(p, n) == /\ n \in DOMAIN mems[p] /\ (n \notin ISR(metas[p]) \/ ~InRaft(metas[p], n, EnvP(p)))
                    /\ mems' = [mems EXCEPT ![p] = [x \in DOMAIN @ \ {n} |-> @[x]]]
-                   /\ UNCHANGED <<metas, views, alive, unsynced, used, bad, calls, rf>>
+                   /\ UNCHANGED <<metas, views, alive, unsynced, used, bad, calls, rf, rmn>>
 \* the operator changes the replication factor (ChangeNamespaceMetaParam refuses when fewer data
 \* nodes than the new factor are alive); records written earlier are judged by the factor then in force
 ChangeFactor(r) == /\ r \in RSet /\ r # rf /\ Cardinality(alive) >= r
                    /\ rf' = r
-                   /\ UNCHANGED <<metas, views, alive, unsynced, mems, used, bad, calls>>
+                   /\ UNCHANGED <<metas, views, alive, unsynced, mems, used, bad, calls, rmn>>
 
 CNext == \/ \E w \in Writers, p \in Parts, s \in {"cur", "snap"} : Migrate(w, p, s) \/ Finish(w, p, s)
          \/ \E w \in Writers, p \in Parts, n \in Nodes, s \in {"cur", "snap"} : PlanAdd(w, p, n, s) \/ PlanRemove(w, p, n, s)
-         \/ \E w \in Writers : CheckRound(w) \/ BalanceRound(w)
+         \/ \E w \in Writers : CheckRound(w) \/ BalanceRound(w) \/ MoveOff(w)
+         \/ \E n \in Nodes : MarkNodeRemoving(n)
          \/ \E w \in Writers, p \in Parts : Snapshot(w, p)
          \/ \E n \in Nodes : NodeDown(n) \/ NodeUp(n) \/ SyncLost(n) \/ SyncBack(n)
          \/ \E p \in Parts, n \in Nodes : RaftJoin(p, n) \/ RaftLeave(p, n)
@@ -278,6 +308,8 @@ C18_IdsNeverReused    == /\ bad \cap {"IdReused", "C18:IdsMalformed"} = {}
 C18_NoMarkUnreachable == "MarkedWhenMajorityUnreachable" \notin bad
 \* a balance / check round never reduces the number of in-sync replicas below the factor
 C18x_RoundKeepsInSync == "RoundReducedInSync" \notin bad
+\* a node marked for removal is reported removable only when no partition lists it
+C18x_RemovableOnlyUnlisted == "RemovableWhileListed" \notin bad
 \* what is handed to the placement function as the previous layout (the in-sync list of every
 \* partition) never contains a node twice
 C18x_PlacementInputDistinct == \A p \in Parts : Cardinality(ISR(metas[p])) = Len(SelectSeq(metas[p].nodes, LAMBDA x : x \notin metas[p].rem))
